@@ -142,12 +142,19 @@ def make_classifier(cfg):
     return classify
 
 
-def sig_of(classes):
-    """<violated rule>|after:<control point / notification steps of the minimal history>|at:<rejected step>
-    (data writes, skipped notifications and results are left out of the history label)"""
-    inp, _, res = classes[-1].partition("=")
-    hist = [x.partition("=")[0] for x in classes[:-1] if not x.startswith("data()") and not x.endswith("=skipped")]
-    return "%s|after:%s|at:%s" % (res.lstrip("!"), ">".join(hist), inp)
+def make_sig_of(cfg):
+    page, regs = CONFIGS[cfg]
+    unaligned = any(a % page or b % page for a, b in regs)
+
+    def sig_of(classes):
+        """<violated rule>|after:<control point / notification steps of the minimal history>|at:<rejected step>
+        (data writes, skipped notifications and results are left out of the history label; a page-granularity
+        violation - ':straddles' - in a configuration whose regions are not page aligned is marked as such)"""
+        inp, _, res = classes[-1].partition("=")
+        hist = [x.partition("=")[0] for x in classes[:-1] if not x.startswith("data()") and not x.endswith("=skipped")]
+        pre = "unaligned_regions:" if unaligned and res.endswith(":straddles") else ""
+        return "%s%s|after:%s|at:%s" % (pre, res.lstrip("!"), ">".join(hist), inp)
+    return sig_of
 
 
 # ---------------------------------------------------------------------------------------------------
@@ -196,7 +203,7 @@ def run_cases(c, exe, cases, tag, tcfg, jobs=8):
 
 
 def judge(c, exe, cfg, cases, tcfg):
-    classify = make_classifier(cfg)
+    classify, sig_of = make_classifier(cfg), make_sig_of(cfg)
     res = run_cases(c, exe, cases, cfg, tcfg, jobs=8 if c.quick else 24)
     fails = [_minimise.Failure(ops, evs, k) for ops, (evs, k) in zip(cases, res) if k is not None]
     c.extra["rejected_executions"][cfg] = len(fails)
@@ -239,20 +246,20 @@ def run(c):
     c.extra["rejected_executions"] = {}
     tcfg = vlib.write_cfg(c, "trace.cfg", TRACE_CFG)
     pool = ThreadPoolExecutor(6)
-    builds = build_all(c, pool, None if c.replay else os.environ.get("VERIF_DEV_C39_CONFIGS"))
+    builds = build_all(c, pool, None if c.replay else
+                       (os.environ.get("VERIF_DEV_C39_CONFIGS") or ("p4_two,p4_unaligned,p16_two" if c.quick else None)))
     if c.replay:
         return replay(c, builds, tcfg)
     f_mc = pool.submit(vlib.model_check, c, "Bootloader", "MCBootloader.tla", "MC.cfg" if c.quick else "MCThorough.cfg", workers=4) \
         if not os.environ.get("VERIF_DEV_SKIP_MC") else pool.submit(lambda: None)
     # behaviours per configuration: (mode, depth) exhaustive + random wide ones
     if c.quick:
-        plan = {"p4_two": [("bfs", 2), ("flash", 3), ("race", 7)], "p4_unaligned": [("flash", 3)], "p16_two": [("flash", 3)],
-                "p4_adjacent": [("flash", 3)]}
-        nsim, dsim = 40, 8
+        plan = {"p4_two": [("bfs", 2), ("flash", 3), ("race", 7)], "p4_unaligned": [("flash", 3)], "p16_two": [("flash", 3)]}
+        nsim, dsim = 20, 8
     else:
         plan = {"p4_two": [("bfs", 3), ("flash", 5), ("race", 8)], "p4_unaligned": [("bfs", 2), ("flash", 4)],
                 "p16_two": [("bfs", 2), ("flash", 4), ("race", 7)], "p4_adjacent": [("flash", 4)]}
-        nsim, dsim = 500, 12
+        nsim, dsim = 60, 10
     only = os.environ.get("VERIF_DEV_C39_CONFIGS")           # development aid (mutation runs): restrict the configurations
     if only:
         plan = {k: v for k, v in plan.items() if k in only.split(",")}
@@ -299,6 +306,6 @@ def replay(c, builds, tcfg):
     (evs, k), = run_cases(c, builds[cfg].result(), [case["ops"]], "replay", tcfg)
     c.sample(evs)
     if k is not None:
-        c.finding(sig_of([classify(e) for e in evs[1:k + 1]]), "replayed case rejected at event %d: %s" % (k, evs[k]), case)
+        c.finding(make_sig_of(cfg)([classify(e) for e in evs[1:k + 1]]), "replayed case rejected at event %d: %s" % (k, evs[k]), case)
     else:
         c.note("replayed case is accepted by the specification")
